@@ -230,13 +230,30 @@ class _Resolver:
 
 
 def _skolemize_goal(goal):
-    """forall x. G(x)  ->  G(c) for fresh constants c (proving the instance for arbitrary c proves the goal)."""
+    """Replace the universally quantified variables of a goal (also under conjunctions / implications) by fresh
+    constants: proving the instance for arbitrary constants proves the goal."""
     consts = []
-    while z3.is_quantifier(goal) and goal.is_forall():
-        vs = [z3.FreshConst(goal.var_sort(i), "sk_" + goal.var_name(i).replace("!", "_")) for i in range(goal.num_vars())]
+
+    def fresh_for(q):
+        vs = [z3.FreshConst(q.var_sort(i), "sk_" + q.var_name(i).replace("!", "_")) for i in range(q.num_vars())]
         consts.extend(vs)
-        goal = z3.substitute_vars(goal.body(), *reversed(vs))
-    return goal, consts
+        return vs
+
+    def go(g, depth=0):
+        if depth > 6:
+            return g
+        if z3.is_quantifier(g) and g.is_forall():
+            return go(z3.substitute_vars(g.body(), *reversed(fresh_for(g))), depth + 1)
+        if z3.is_not(g) and z3.is_quantifier(g.arg(0)) and g.arg(0).is_exists():
+            q = g.arg(0)
+            return z3.Not(z3.substitute_vars(q.body(), *reversed(fresh_for(q))))
+        if z3.is_and(g):
+            return z3.And([go(c, depth + 1) for c in g.children()])
+        if z3.is_implies(g):
+            return z3.Implies(g.arg(0), go(g.arg(1), depth + 1))
+        return g
+
+    return go(goal), consts
 
 
 def _ground_terms(e, limit=14):
